@@ -34,6 +34,41 @@ def use_repo_sources():
 
 
 @contextlib.contextmanager
+def verbose_logging(level="DEBUG"):
+    """run a slice of a harness the way every `batchie` command runs under `-v/--verbose`: the `batchie` logger at DEBUG with a
+    handler that really formats every record (so code that only executes when debug logging is enabled -- summaries, sanity
+    dumps, lazily formatted arguments -- executes), whatever `logging.disable` / `setLevel` state the harness had set; that state is
+    restored afterwards.  Cases run under it should carry `"verbose": True` so that `replay` re-enters it."""
+    import logging
+
+    class _Sink(logging.Handler):
+        n = 0
+
+        def emit(self, record):
+            try:
+                self.format(record)
+            except Exception:
+                pass
+            _Sink.n += 1
+
+    lg = logging.getLogger("batchie")
+    old_level, old_disable, old_prop = lg.level, logging.root.manager.disable, lg.propagate
+    old_handlers = list(lg.handlers)
+    sink = _Sink(level=getattr(logging, level))
+    logging.disable(logging.NOTSET)
+    lg.setLevel(getattr(logging, level))
+    lg.handlers = [sink]
+    lg.propagate = False
+    try:
+        yield sink
+    finally:
+        lg.handlers = old_handlers
+        lg.propagate = old_prop
+        lg.setLevel(old_level)
+        logging.disable(old_disable)
+
+
+@contextlib.contextmanager
 def lake_lock():
     os.makedirs(os.path.join(LEAN, ".lake"), exist_ok=True)
     path = os.path.join(LEAN, ".lake", "verif.lock")
